@@ -1468,7 +1468,9 @@ fn c10d(seed: u64, cases: usize, model_path: &str) -> serde_json::Value {
         *dist.entry(format!("n:{n}")).or_default() += 1; *dist.entry(format!("ands:{}", match feat.ands { 0 => "0", 1..=9 => "1-9", _ => ">=10" })).or_default() += 1; distinct.insert((circ::to_line(&c), p_eval, p_out.clone()));
         let mut bad: Vec<String> = vec![];
         for p in 0..n { let want = if p_out.contains(&p) { oracle.clone() } else { vec![] }; match &outs[p] { Some(Ok(o)) if *o == want => {}, other => bad.push(format!("party {p}: got {}, want Ok({})", format!("{other:?}").chars().take(120).collect::<String>(), circ::bits(&want))) } }
-        if !matches!(outs[n], Some(Ok(_))) { bad.push(format!("the dealer ended with {:?}", outs[n])); }
+        // a circuit without AND gates: the parties never ask for AND shares (`num_and_ops == 0` returns early), the dealer waits for the request until the parties
+        // have gone - its error then says nothing about the shares it handed out (not claimed by C10)
+        if !matches!(outs[n], Some(Ok(_))) && feat.ands > 0 { bad.push(format!("the dealer ended with {:?}", outs[n])); }
         // decode the dealer's traffic
         let from_dealer = |ph: &str, p: usize| payloads.iter().find(|(f, t, h, _)| *f == n && *t == p && h == ph).map(|x| x.3.clone());
         let deltas: Vec<Option<u128>> = (0..n).map(|p| from_dealer("delta (fpre)", p).and_then(|d| if d.len() == 24 { Some(u128::from_le_bytes(d[8..24].try_into().unwrap())) } else { None })).collect();
